@@ -385,3 +385,223 @@ Proof.
   - vm_compute. discriminate.
   - exists [2]. vm_compute. discriminate.
 Qed.
+
+(* ---------- processes: who executes a step, what a process remembers ---------- *)
+Lemma prun_app pol h a ps : prun pol (h ++ [a]) ps = pstep pol (fst (prun pol h ps)) a.
+Proof. unfold prun. rewrite fold_left_app. reflexivity. Qed.
+
+Lemma pstep_disk pol ps a : disk (fst (pstep pol ps a)) = step (disk ps) (erase a).
+Proof. destruct a as [x o|]; reflexivity. Qed.
+
+(* the files evolve as in the unlabelled history: neither the executor of a step nor the memory
+   policy reaches the cache directory *)
+Lemma prun_disk_gen pol h : forall ps g,
+  disk (fst (fold_left (fun acc a => pstep pol (fst acc) a) h (ps, g))) = run (map erase h) (disk ps).
+Proof.
+  induction h as [|a h IH]; intros ps g; [reflexivity|].
+  cbn [fold_left map fst]. destruct (pstep pol ps a) as [ps' g'] eqn:E. rewrite IH.
+  replace (disk ps') with (step (disk ps) (erase a)) by (rewrite <- pstep_disk with (pol := pol), E; reflexivity).
+  reflexivity.
+Qed.
+
+Theorem prun_disk pol h ps : disk (fst (prun pol h ps)) = run (map erase h) (disk ps).
+Proof. apply prun_disk_gen. Qed.
+
+Lemma load_nomemo m s : load NoMemo m s = match bfile s with None => None | Some _ => tfile s end.
+Proof. unfold load. destruct (bfile s), m; reflexivity. Qed.
+
+Lemma role_binning_valid c r : valid_edges (c_edges c) = true -> valid_ob (role_binning c r) = true.
+Proof. intros Hv. destruct r; simpl; [exact Hv|reflexivity]. Qed.
+
+Lemma measure_step c r s :
+  valid_edges (c_edges c) = true -> step s (Measure c r) = build (role_binning c r) false s.
+Proof. intros Hv. unfold step, step_with. rewrite Hv. reflexivity. Qed.
+
+(* after the unforced build of a measurement the cache holds a binning file and the requested trees *)
+Lemma measure_step_files c r s :
+  valid_edges (c_edges c) = true -> Inv s ->
+  (exists b', bfile (step s (Measure c r)) = Some b') /\
+  tfile (step s (Measure c r)) = built_for (role_binning c r).
+Proof.
+  intros Hv HI. rewrite (measure_step c r s Hv). split.
+  - destruct (build_bfile (role_binning c r) false s (role_binning_valid c r Hv)) as [b' [Hb _]].
+    exists b'. exact Hb.
+  - apply (build_with_trees binning_equal (role_binning c r) false s binning_equal_sound HI).
+Qed.
+
+Lemma rebuilds_false_step s o : rebuilds s o = false -> step s o = s.
+Proof.
+  unfold rebuilds, step, step_with, op_request. destruct o as [b f|c r|]; [| |reflexivity].
+  - destruct (valid_ob b); [|reflexivity]. unfold build_with. destruct f; [discriminate|].
+    destruct (bfile s) as [stored|]; [|discriminate].
+    destruct (binning_equal stored b); [reflexivity|discriminate].
+  - destruct (valid_edges (c_edges c)); [|reflexivity]. unfold build_with.
+    destruct (bfile s) as [stored|]; [|discriminate].
+    destruct (binning_equal stored (role_binning c r)); [reflexivity|discriminate].
+Qed.
+
+(* what the measuring process holds in memory is what the trees file holds *)
+Definition PInv (ps : pst) : Prop :=
+  Inv (disk ps) /\ forall t, mem ps = Some t -> tfile (disk ps) = Some t.
+
+Lemma pinv_fresh : PInv p_fresh.
+Proof. split; [exact inv_fresh|]. intros t H. discriminate. Qed.
+
+Lemma keep_load_pinv pol m s :
+  (forall t, m = Some t -> tfile s = Some t) ->
+  forall t, keep pol (load pol m s) m = Some t -> tfile s = Some t.
+Proof.
+  intros Hm t. unfold keep, load. destruct pol; [discriminate|].
+  destruct (bfile s) as [b|]; [|apply Hm].
+  destruct m as [t0|].
+  - intros H. injection H as <-. apply Hm. reflexivity.
+  - destruct (tfile s) as [t1|]; [intros H; exact H|discriminate].
+Qed.
+
+(* a step executed by the measuring process itself keeps memory and files together *)
+Lemma pstep_self_pinv pol ps a :
+  match a with Do Self _ | Peek => True | _ => False end -> PInv ps -> PInv (fst (pstep pol ps a)).
+Proof.
+  intros Ha [HI Hm]. destruct a as [x o|].
+  - destruct x; try contradiction. unfold pstep. cbn [fst disk mem]. split.
+    + apply step_preserves_inv. exact HI.
+    + destruct (rebuilds (disk ps) o) eqn:R.
+      * destruct (reads o); [apply keep_load_pinv; discriminate|]. destruct pol; discriminate.
+      * rewrite (rebuilds_false_step _ _ R).
+        destruct (reads o); [apply keep_load_pinv; exact Hm|]. destruct pol; [discriminate|exact Hm].
+  - unfold pstep. cbn [fst disk mem]. split; [exact HI|]. apply keep_load_pinv. exact Hm.
+Qed.
+
+(* a step executed by forked processes leaves the parent's memory as it was *)
+Lemma pstep_forked_mem pol ps x o : x <> Self -> mem (fst (pstep pol ps (Do x o))) = mem ps.
+Proof. intros Hx. destruct x; [contradiction| |]; reflexivity. Qed.
+
+(* the measurement step itself: with memory and files together it works with the requested trees
+   unless a pool's counting workers inherit something (they inherit nothing when mem = None) *)
+Lemma measure_used pol q x c r :
+  valid_edges (c_edges c) = true -> PInv q -> (x = Pool -> mem q = None) ->
+  snd (pstep pol q (Do x (Measure c r))) = built_for (role_binning c r).
+Proof.
+  intros Hv [HI Hm] Hx. unfold pstep. cbn [snd]. unfold reads. rewrite Hv.
+  destruct (measure_step_files c r (disk q) Hv HI) as [[b' Hb] Ht].
+  assert (L : forall m, (forall t, m = Some t -> tfile (step (disk q) (Measure c r)) = Some t) ->
+              load pol m (step (disk q) (Measure c r)) = built_for (role_binning c r)).
+  { intros m Hm'. unfold load. rewrite Hb. destruct pol; [destruct m; exact Ht|].
+    destruct m as [t|]; [|exact Ht]. rewrite <- Ht. symmetry. apply Hm'. reflexivity. }
+  assert (L1 : forall t, (if rebuilds (disk q) (Measure c r) then None else mem q) = Some t ->
+               tfile (step (disk q) (Measure c r)) = Some t).
+  { intros t. destruct (rebuilds (disk q) (Measure c r)) eqn:R; [discriminate|].
+    rewrite (rebuilds_false_step _ _ R). apply Hm. }
+  destruct x; [apply L; exact L1| |apply L; exact L1].
+  apply L. rewrite (Hx eq_refl). discriminate.
+Qed.
+
+(* C07 for the code's policy (nothing kept in memory): whoever executed the earlier steps and
+   whoever executes the measurement, it works with the trees of the requested binning *)
+Theorem process_independent h x c r ps :
+  valid_edges (c_edges c) = true -> Inv (disk ps) ->
+  pused NoMemo (h ++ [Do x (Measure c r)]) ps = built_for (role_binning c r).
+Proof.
+  intros Hv HI. unfold pused. rewrite prun_app.
+  set (q := fst (prun NoMemo h ps)).
+  assert (HIq : Inv (disk q)) by (unfold q; rewrite prun_disk; apply run_preserves_inv; exact HI).
+  unfold pstep. cbn [snd]. unfold reads. rewrite Hv, load_nomemo.
+  destruct (measure_step_files c r (disk q) Hv HIq) as [[b' Hb] Ht]. rewrite Hb. exact Ht.
+Qed.
+
+(* ... which are the trees the same measurement works with on a freshly created cache, executed
+   by the measuring process itself *)
+Corollary process_independent_fresh h x c r ps :
+  valid_edges (c_edges c) = true -> Inv (disk ps) ->
+  pused NoMemo (h ++ [Do x (Measure c r)]) ps = pused NoMemo [Do Self (Measure c r)] p_fresh.
+Proof.
+  intros Hv HI. rewrite (process_independent h x c r ps Hv HI).
+  symmetry. apply (process_independent [] Self c r p_fresh Hv inv_fresh).
+Qed.
+
+(* a peek of the measuring process returns the trees file, after any labelled history *)
+Theorem peek_nomemo h ps :
+  pused NoMemo (h ++ [Peek]) ps =
+  match bfile (run (map erase h) (disk ps)) with
+  | None => None
+  | Some _ => tfile (run (map erase h) (disk ps))
+  end.
+Proof. unfold pused. rewrite prun_app. unfold pstep. cbn [snd]. rewrite load_nomemo, prun_disk. reflexivity. Qed.
+
+(* keeping the unpickled trees in memory is harmless as long as ONE process executes everything *)
+Lemma prun_self_pinv pol h : forall ps, all_self h = true -> PInv ps -> PInv (fst (prun pol h ps)).
+Proof.
+  induction h as [|a h IH] using rev_ind; intros ps Ha HP; [exact HP|].
+  rewrite prun_app. unfold all_self in Ha. rewrite forallb_app in Ha. apply andb_true_iff in Ha as [Hh Ha].
+  simpl in Ha. rewrite andb_true_r in Ha. apply pstep_self_pinv; [|apply IH; assumption].
+  destruct a as [[| |] o|]; try discriminate; exact I.
+Qed.
+
+Theorem memo_same_process_sound h c r ps :
+  all_self h = true -> valid_edges (c_edges c) = true -> PInv ps ->
+  pused MemoOwnInvalidate (h ++ [Do Self (Measure c r)]) ps = built_for (role_binning c r).
+Proof.
+  intros Ha Hv HP. unfold pused. rewrite prun_app.
+  apply measure_used; [exact Hv|apply prun_self_pinv; assumption|discriminate].
+Qed.
+
+(* ... and as long as the measuring process never executes anything itself *)
+Lemma prun_forked_mem pol h : forall ps, all_forked h = true -> mem (fst (prun pol h ps)) = mem ps.
+Proof.
+  induction h as [|a h IH] using rev_ind; intros ps Ha; [reflexivity|].
+  rewrite prun_app. unfold all_forked in Ha. rewrite forallb_app in Ha. apply andb_true_iff in Ha as [Hh Ha].
+  simpl in Ha. rewrite andb_true_r in Ha.
+  destruct a as [[| |] o|]; try discriminate; (rewrite pstep_forked_mem by discriminate); apply IH; exact Hh.
+Qed.
+
+Theorem memo_all_forked_sound h x c r ps :
+  all_forked h = true -> valid_edges (c_edges c) = true -> Inv (disk ps) -> mem ps = None ->
+  pused MemoOwnInvalidate (h ++ [Do x (Measure c r)]) ps = built_for (role_binning c r).
+Proof.
+  intros Ha Hv HI Hm. unfold pused. rewrite prun_app.
+  assert (M : mem (fst (prun MemoOwnInvalidate h ps)) = None) by (rewrite prun_forked_mem; assumption).
+  apply measure_used; [exact Hv| |intros _; exact M].
+  split; [rewrite prun_disk; apply run_preserves_inv; exact HI|]. rewrite M. discriminate.
+Qed.
+
+(* but it is refuted by histories that MIX executors.  (1,2] by the measuring process, then (1,3/2]
+   by a child process (which rebuilds and forgets ITS copy), then (1,3/2] by the measuring process:
+   no rebuild, nothing forgotten, the pairs are counted on the trees for (1,2]; a record at z = 2
+   is in the stale bin only *)
+Definition cfg_12 : cfg := {| c_edges := e12; c_closed := false; c_scales := [] |}.
+Definition cfg_132 : cfg := {| c_edges := [1; 3 # 2]; c_closed := false; c_scales := [] |}.
+
+Theorem memo_own_invalidate_refuted :
+  exists h x c r, valid_edges (c_edges c) = true /\ PInv p_fresh /\
+    pused MemoOwnInvalidate (h ++ [Do x (Measure c r)]) p_fresh <> built_for (role_binning c r) /\
+    exists zs, option_map (fun t => tree_counts t zs) (pused MemoOwnInvalidate (h ++ [Do x (Measure c r)]) p_fresh)
+               <> Some (tree_counts (role_binning c r) zs).
+Proof.
+  exists [Do Self (Measure cfg_12 Reference); Do Child (Measure cfg_132 Reference)], Self, cfg_132, Reference.
+  split; [reflexivity|]. split; [exact pinv_fresh|]. split.
+  - vm_compute. discriminate.
+  - exists [2]. vm_compute. discriminate.
+Qed.
+
+(* two steps suffice when the second one uses a pool: its building workers rebuild, its counting
+   workers are forked from the measuring process and inherit the trees for (1,2] *)
+Theorem memo_own_invalidate_refuted_in_pool :
+  exists h c r, valid_edges (c_edges c) = true /\ PInv p_fresh /\
+    pused MemoOwnInvalidate (h ++ [Do Pool (Measure c r)]) p_fresh <> built_for (role_binning c r) /\
+    exists zs, option_map (fun t => tree_counts t zs) (pused MemoOwnInvalidate (h ++ [Do Pool (Measure c r)]) p_fresh)
+               <> Some (tree_counts (role_binning c r) zs).
+Proof.
+  exists [Do Self (Measure cfg_12 Reference)], cfg_132, Reference.
+  split; [reflexivity|]. split; [exact pinv_fresh|]. split.
+  - vm_compute. discriminate.
+  - exists [2]. vm_compute. discriminate.
+Qed.
+
+(* the same policy also serves a stale peek: build (1,2], peek, forced rebuild for (1,3/2] by a child, peek *)
+Theorem memo_own_invalidate_stale_peek :
+  exists h zs, option_map (fun t => tree_counts t zs) (pused MemoOwnInvalidate (h ++ [Peek]) p_fresh)
+               <> option_map (fun t => tree_counts t zs) (pused NoMemo (h ++ [Peek]) p_fresh).
+Proof.
+  exists [Do Self (Build (Some (e12, false)) false); Peek; Do Child (Build (Some ([1; 3 # 2], false)) true)], [2].
+  vm_compute. discriminate.
+Qed.
